@@ -67,6 +67,9 @@ MENU = {
     'eqnstar': art('\\begin{eqnarray*}a&=&b\\\\ c&=&d\\end{eqnarray*}'),
     'eqn': art('\\begin{eqnarray}a&=&b\\label{r1}\\\\ c&=&d\\\\ e&=&f\\end{eqnarray}\\begin{equation}g\\label{r2}\\end{equation}\\ref{r1}\\ref{r2}'),
     'inlinemath': art('u \\(a+b\\) v \\(c\\) w'),
+    # math / a list left open although the document environment is closed
+    'openmath_end': '\\documentclass{article}\\begin{document}t $x + y \\end{document}',
+    'openlist_end': '\\documentclass{article}\\begin{document}\\begin{enumerate}\\item a\\begin{enumerate}\\item b \\end{document}',
     'unkpkg': '\\documentclass{article}\\usepackage{zzunknownpkg}\\usepackage[opt]{zzotherpkg}\\begin{document}u v\\end{document}',
     'input': art('\\input{zz-no-such-file} t \\IfFileExists{zz-no-such-file.tex}{ya}{na}'),
     # programs that register a column type through the Python API before using it (same letter, different attributes)
